@@ -118,7 +118,7 @@ func (e *vJoinEnv) checkStream() {
 		}
 	}
 	vAssert(vIsClosed(e.d.output), "C03: the output is closed after the input was closed and flushed")
-	vAssert(vWatchHits() == 0, "C08: the discipline never writes into a slice it has delivered (copy mode)")
+	vAssert(vWatchHits() == 0, "C03/C08: the discipline never writes into a slice it has delivered (a consumer that keeps the slices until the output closes still reads exactly the input stream)")
 }
 
 // gosym: mode=int
